@@ -86,6 +86,34 @@ def is_gather(n):
     return False
 
 
+MAYBE_COPY = {'ascontiguousarray', 'asarray', 'array', 'astype', 'copy', 'clone', 'contiguous', 'asfortranarray', 'require', 'to', 'as_tensor',
+              'tensor', 'atleast_1d', 'atleast_2d', 'reshape', 'ravel', 'flatten'}
+
+
+def _read_after(f, name, st):
+    """the local is read by a statement after `st` (then the updated private array is still used)"""
+    after = False
+    for s2, _ in walk(f.node):
+        if s2 is st:
+            after = True
+            continue
+        if after and not any(s2 is x for x in ast.walk(st)):
+            if any(isinstance(x, ast.Name) and x.id == name and isinstance(x.ctx, ast.Load) for x in ast.walk(s2)):
+                return True
+    return False
+
+
+def _stored_later(f, name, field, st):
+    after = False
+    for s2, _ in walk(f.node):
+        if s2 is st:
+            after = True
+            continue
+        if after and isinstance(s2, ast.Assign) and any(norm(t) == field for t in s2.targets) and isinstance(s2.value, ast.Name) and s2.value.id == name:
+            return True
+    return False
+
+
 def check_site(run, repo, f, st, call, callee, rule='R5'):
     """One call site of a kernel with in/out components."""
     from .resolve import bind
@@ -101,6 +129,28 @@ def check_site(run, repo, f, st, call, callee, rule='R5'):
     for pos, param, byval in comps:
         actual = mapping.get(param)
         if actual is None:
+            continue
+        maybe_copy = None
+        if (isinstance(actual, ast.Name) and actual.id not in f.params) or isinstance(actual, ast.Call):
+            # a local handed to the kernel: an alias of a field is that field; the result of a conversion that copies when it
+            # has to (ascontiguousarray / asarray / array / astype / copy ...) is a possibly private array, like a gathered
+            # selection - what the kernel writes into it reaches the object only if the result is stored back
+            from ..names import deref
+            d = deref(f, actual) if isinstance(actual, ast.Name) else actual
+            lname = actual.id if isinstance(actual, ast.Name) else None
+            if is_field_lvalue(d):
+                actual = d
+            elif isinstance(d, ast.Call) and norm(d.func).split('.')[-1] in MAYBE_COPY:
+                src = [a for a in list(d.args) + ([d.func.value] if isinstance(d.func, ast.Attribute) else []) if is_field_lvalue(a)]
+                if src and stores_into(callee, param) and (lname is None or not _read_after(f, lname, st)):
+                    maybe_copy = src[0]
+        if maybe_copy is not None:
+            n += 1
+            tgt = targets[pos] if (targets is not None and pos < len(targets)) else None
+            stored = tgt is not None and (norm(tgt) == norm(maybe_copy) or (isinstance(tgt, ast.Name) and _stored_later(f, tgt.id, norm(maybe_copy), st)))
+            run.check(stored, rule, f, st, 'the kernel updates `%s` in place, but it is handed `%s`, which may be a private copy of %s (%s copies whenever it '
+                      'has to convert), and neither that array nor the result is stored back: the update is lost whenever a copy was made'
+                      % (param, norm(mapping.get(param)), norm(maybe_copy), norm(d.func)), '%s -> %s' % (param, norm(maybe_copy)))
             continue
         live = is_field_lvalue(actual)
         gather = is_gather(actual)
